@@ -13,9 +13,10 @@ equals the real one and the image equals the mirror unit for unit, otherwise the
 Afterwards the model adopts the mirror (one defect is reported once; the buffer is dropped and
 `bitmap_blocks` is what a write-back leaves).
 
-  fspd variant <dd> <pl> <bc> <fh>                     → ok   (0/1 each: which repairs the real source contains, probed by
+  fspd variant <dd> <pl> <bc> <fh> <ff>                → ok   (0/1 each: which repairs the real source contains, probed by
                                                           the harness on the real code: directory delete follows the chain,
-                                                          put size limits, ⌈total/4096⌉ bitmap blocks, hole in index slot 0;
+                                                          put size limits, ⌈total/4096⌉ bitmap blocks, hole in index slot 0,
+                                                          field lengths checked before the directory is touched;
                                                           every other request answers `need-variant` until this was sent)
   fspd format <volname> <time> <cmp|nocmp> <real>      → ok | bad …   (blank image of the mirror's size; block 0 — boot
                                                           code — is taken from the mirror; `nocmp`: do not compare)
@@ -214,10 +215,11 @@ def bit (s : String) : Option Bool := if s == "1" then some true else if s == "0
 
 def handle (mirror : Raw) (prev : Option Vol) (st : St) (toks : List String) : St × String :=
   match toks with
-  | ["variant", a, b, c, d] =>
-    match bit a, bit b, bit c, bit d with
-    | some a, some b, some c, some d => ({ st with rp := some { dirDelete := a, putLimits := b, bitmapCeil := c, firstHole := d } }, "ok")
-    | _, _, _, _ => (st, "bad-request")
+  | ["variant", a, b, c, d, e] =>
+    match bit a, bit b, bit c, bit d, bit e with
+    | some a, some b, some c, some d, some e =>
+      ({ st with rp := some { dirDelete := a, putLimits := b, bitmapCeil := c, firstHole := d, fieldsFirst := e } }, "ok")
+    | _, _, _, _, _ => (st, "bad-request")
   | _ =>
   match st.rp with
   | none => (st, "need-variant")
